@@ -405,6 +405,8 @@ class Walk:
         if self.mode in ("load", "worksteal") and "crash:" in out and "crash:None" not in out and rng.random() < 0.3:
             item = out.split(" | ")[2][len("crash:"):]
             self.do(f"pend {item}")
+            if rng.random() < 0.3 and not self.real.dead:
+                self.do(f"pend {item}")        # a plugin may re-queue the crashed test several times from one hook call
         if rng.random() < 0.8:
             new = self.nextid
             self.nextid += 1
@@ -439,7 +441,8 @@ class Walk:
             n = rng.choice(list(self.steal_out))
             req = self.steal_out.pop(n)
             book = self.books().get(n, [])
-            can = all(i in book[2:] for i in req)
+            q = book[2:]      # what a worker that has taken its first two tests still has queued
+            can = all(i in q for i in req) and len([x for x in q if x in req]) == len(set(req))   # remote.py: all-or-nothing
             give = req if (can and rng.random() < 0.75) else []
             self.do(f"unsched {n} {show_nat_list(give)}")
             return True
@@ -534,8 +537,9 @@ class Monitor:
                     idx = [int(x) for x in f[2].split(",")] if f[2] != "-" else []
                     if col is not None and any(i >= len(col) for i in idx):
                         self.fire(["C16"], "run-index-out-of-range", f"{o}: index beyond the agreed collection", ops, {"len": len(col)})
-                    if len(set(idx)) != len(idx):
-                        self.fire(["C16", "C01"], "run-index-twice-in-command", f"{o} repeats an index", ops, {})
+                    dup = [i for i in set(idx) if idx.count(i) > 1 and idx.count(i) > self.requeued[i]]
+                    if dup:      # (a test re-queued k times by the crash hook may legitimately be dispatched k times)
+                        self.fire(["C16", "C01"], "run-index-twice-in-command", f"{o} repeats index {dup}", ops, {})
                 if f[0] == "steal":
                     if self.steal_open is not None:
                         self.fire(["C07"], "second-steal-while-outstanding",
@@ -545,6 +549,21 @@ class Monitor:
                     book = after["books"].get(n, [])
                     if any(i not in book for i in idx):
                         self.fire(["C16", "C07"], "steal-not-in-book", f"{o}: not all queued on gw{n} ({book})", ops, {})
+        # ---- what is dispatched in one call is a prefix of the unassigned list (as extended by that call), in order:
+        #      this is what keeps a re-queued test ahead of the others (C15) and the hand-out in collection order
+        if mode in ("load", "worksteal") and before["col"] is not None and op[0] in ("pend", "done", "unsched", "rm"):
+            pool0 = list(before["pool"])
+            if op[0] == "pend":
+                t0 = unesc(op[1])
+                pool0 = ([before["col"].index(t0)] if t0 in before["col"] else []) + pool0
+            elif op[0] == "rm":
+                pool0 = pool0 + before["books"].get(int(op[1]), [])[1:]
+            elif op[0] == "unsched":
+                pool0 = pool0 + ([] if op[2] == "-" else [int(x) for x in op[2].split(",")])
+            sent = [int(x) for o in outs if o.startswith("run:") for x in o.split(":")[2].split(",") if x != "-"]
+            if sent != pool0[: len(sent)]:
+                self.fire(["C15"] if self.had_requeue or op[0] == "pend" else ["C16"], "dispatch-not-pool-prefix",
+                          f"dispatched {sent}, the unassigned list was {pool0}", ops, {"line": line})
         # ---- after an answer the book is the old book without the returned tests, in the old order (C07; C03 relies on it)
         if op[0] == "unsched" and mode == "worksteal":
             n = int(op[1])
@@ -579,7 +598,17 @@ class Monitor:
             t = unesc(op[1])
             if t in before["col"]:
                 self.had_requeue = True
-                self.requeued[before["col"].index(t)] += 1
+                idx0 = before["col"].index(t)
+                self.requeued[idx0] += 1
+                # C15: the re-queued test goes ahead of the other unassigned tests
+                runs = [o for o in outs if o.startswith("run:")]
+                if idx0 in after["pool"]:
+                    if after["pool"][0] != idx0:
+                        self.fire(["C15"], "requeued-not-first-in-pool", f"re-queued index {idx0} is not at the front of the unassigned list {after['pool']}", ops, {})
+                elif runs:
+                    first = runs[0].split(":")[2].split(",")[0]
+                    if first != str(idx0) and before["pool"]:
+                        self.fire(["C15"], "requeued-not-dispatched-first", f"re-queued index {idx0} was dispatched behind other unassigned tests: {runs}", ops, {})
         if op[0] == "sched" and before["col"] is None and after["col"] is not None:
             self.started = Counter(range(len(after["col"])))
         # ---- ledger (C01 / C03 / C15), load-balancing modes, duplicate-free collection
@@ -593,7 +622,14 @@ class Monitor:
                           ops, {"line": line, "out": out})
             lhs = outstanding + self.completed + self.crashed
             rhs = self.started + self.requeued
-            if lhs != rhs:
+            if lhs != rhs and op[0] == "unsched" and any(before["books"].get(int(op[1]), []).count(int(x)) > 1
+                                                        for x in (op[2].split(",") if op[2] != "-" else [])):
+                # the same index is twice in this worker's book (re-queued twice, both copies dispatched to it) and one copy is
+                # given back: remove_pending_tests_from_node removes *all* occurrences, the worker removed only the queued one
+                self.fire(["C15"], "steal-answer-with-duplicate-index",
+                          f"index given back by gw{op[1]} was twice in its book {before['books'].get(int(op[1]))}; the controller dropped both copies", ops, {})
+                self.illegal_seen = True      # the books are inconsistent from here on
+            elif lhs != rhs:
                 props = ["C15"] if self.had_requeue else (["C03"] if self.had_crash else ["C01"])
                 lost = sorted((rhs - lhs).elements())
                 extra = sorted((lhs - rhs).elements())
